@@ -691,6 +691,10 @@ func (c *Conn) cancel(ctx *Ctx) {
 // cancelStream resets a stream that cannot be finished. The caller has already
 // taken it off the queue.
 func (c *Conn) cancelStream(id uint32, code ErrorCode) {
+	c.writeOut(newReset(id, code))
+}
+
+func newReset(id uint32, code ErrorCode) *FrameHeader {
 	h := AcquireFrameHeader()
 	h.SetStream(id)
 
@@ -699,7 +703,20 @@ func (c *Conn) cancelStream(id uint32, code ErrorCode) {
 
 	h.SetBody(fr)
 
-	c.writeOut(h)
+	return h
+}
+
+// writeReset is cancelStream for the write loop itself, which owns the writer
+// and is the only reader of c.out: a frame it queued there would wait for the
+// write loop to come round, and with the queue full that is this very send.
+func (c *Conn) writeReset(id uint32, code ErrorCode) error {
+	h := newReset(id, code)
+
+	err := c.writeFrame(h)
+
+	ReleaseFrameHeader(h)
+
+	return err
 }
 
 type WriteError struct {
@@ -1365,15 +1382,14 @@ func (c *Conn) sendPending(id uint32) error {
 
 				atomic.AddInt32(&c.openStreams, -1)
 
-				// The body cannot be finished, and the peer is part way
-				// through one it would otherwise wait for. Nor can the
-				// request: nothing else is going to end it now.
-				c.cancelStream(id, InternalError)
-
+				// The body cannot be finished, and neither can the request:
+				// nothing else is going to end it now.
 				pb.ctx.markFinished()
 				pb.ctx.resolve(fmt.Errorf("reading the request body: %w", err))
 
-				return nil
+				// The peer is part way through a body it would otherwise
+				// wait for.
+				return c.writeReset(id, InternalError)
 			}
 
 			continue
